@@ -58,6 +58,34 @@ def edge_points(ctx, rng, per_edge):
     return pts, len(edges)
 
 
+def pent_seam_points(ctx, rng, per_seam):
+    """lat/lng points next to the five icosahedron edges that meet at each of the twelve pentagon centres
+    (icosahedron vertices), at log-uniform distances from the vertex (out to the rim of the base cell) and
+    log-uniform offsets from the edge: the thin slivers where the pentagon's sub-hierarchies bulge across a face
+    seam (leading digit in the deleted / rotated sub-sequence of that face's coordinate system)"""
+    a = ctx.c(["facecenters"], tag="fc")[0].split()
+    fc = [ll2v(bits2f(a[2 + 2 * i]), bits2f(a[3 + 2 * i])) for i in range(20)]
+    pc = ctx.c([f"c2ll {gen.hx(gen.mkcell(0, bc, []))}" for bc in gen.PENT], tag="pc")
+    pts = []
+    for bc, ans in zip(gen.PENT, pc):
+        t = ans.split()
+        v = ll2v(bits2f(t[1]), bits2f(t[2]))
+        faces = [i for i in range(20) if ang_dist_v(v, fc[i]) < 0.7]   # vertex to face centre: 0.6524 rad
+        for i in faces:
+            for j in faces:
+                if i < j and ang_dist_v(fc[i], fc[j]) < 0.75:
+                    mid = vnorm(vadd(fc[i], fc[j]))
+                    along = vnorm(vsub(mid, vscale(v, vdot(mid, v))))
+                    across = vnorm(vcross(v, along))
+                    for _ in range(per_seam):
+                        t_ = 10 ** rng.uniform(-4, -0.45)
+                        off = rng.choice([1, -1]) * 10 ** rng.uniform(-9, -1.3)
+                        p = vnorm(vadd(vadd(vscale(v, math.cos(t_)), vscale(along, math.sin(t_))),
+                                       vscale(across, off)))
+                        pts.append((math.asin(max(-1, min(1, p[2]))), math.atan2(p[1], p[0])))
+    return pts
+
+
 def axis_seam_points(ctx):
     """points where an icosahedron edge crosses the equator, the prime meridian or the antimeridian: a coordinate is
     ~0 (or ~pi) there while the same geometry is computed through two different face projections (relative vs
